@@ -314,6 +314,38 @@ def run_mode_case(case, prior):
                 # /simulated and /full_size are lazily re-simulated (C11's business); reproducibility of the
                 # optimisation is judged on the champions and best individuals
                 res = xr.DataTree.from_dict({"/champion": res["champion"].to_dataset().load(), "/best": res["best"].to_dataset().load()} if "best" in res.children else {"/champion": res["champion"].to_dataset().load()})
+            elif kind == "deprecated-exposure":
+                import pyxel
+
+                mode = pyx.make_exposure(times=case["times"], non_destructive=case["nd"], pipeline_seed=case["pseed"])
+                ds = pyxel.exposure_mode(mode, det, pipe)
+                res = xr.DataTree.from_dict({"/r": ds.load()})
+            elif kind == "deprecated-observation":
+                import pyxel
+
+                mode = Observation(
+                    parameters=[ParameterValues(key="pipeline.photon_collection.f.arguments.level", values=case["levels"])],
+                    readout=Readout(times=case["times"], non_destructive=case["nd"]),
+                    pipeline_seed=case["pseed"], with_dask=case["dask"], mode="product",
+                )
+                r = pyxel.observation_mode(mode, det, pipe)
+                res = xr.DataTree.from_dict({"/r": r.dataset.load() if hasattr(r.dataset, "load") else r.dataset})
+            elif kind == "deprecated-calibration":
+                import pyxel
+                from pyxel.calibration import Algorithm, Calibration
+                from pyxel.calibration.fitness import sum_of_abs_residuals
+
+                tf = os.path.join(td, "t.npy")
+                np.save(tf, np.full((4, 5), 60.0))
+                mode = Calibration(
+                    target_data_path=[tf], fitness_function=sum_of_abs_residuals,
+                    algorithm=Algorithm(type="sade", generations=2, population_size=8),
+                    parameters=[ParameterValues(key="pipeline.photon_collection.f.arguments.level", values="_", boundaries=(10.0, 100.0))],
+                    result_type="image", result_fit_range=(0, 4, 0, 5), target_fit_range=(0, 4, 0, 5),
+                    pygmo_seed=case["gseed"], pipeline_seed=case["pseed"], num_islands=1, num_evolutions=1, readout=Readout(),
+                )
+                ds, _processors, _logs, _filenames = pyxel.calibration_mode(mode, det, pipe, compute_and_save=False)
+                res = xr.DataTree.from_dict({"/champion": ds[["champion_fitness", "champion_decision", "champion_parameters"]].load()})
             else:
                 raise ValueError(kind)
             hsh = tree_hash(res)
@@ -472,6 +504,10 @@ def body(ck: common.Check):
         {"mode": "calibration", "pseed": 0, "times": [1.0], "nd": False, "own_seed": 11, "gseed": 100000, "islands": 2},
         {"mode": "exposure", "pseed": 0, "times": [1.0, 2.0], "nd": True, "own_seed": 11, "reuse": True},
         {"mode": "observation", "pseed": 0, "times": [1.0], "nd": False, "own_seed": None, "levels": [10.0, 20.0, 30.0], "dask": True, "scheduler": "threads", "workers": 4},
+        # the deprecated, still exported entry points (pyxel.exposure_mode / observation_mode / calibration_mode)
+        {"mode": "deprecated-exposure", "pseed": 7, "times": [1.0, 2.0], "nd": False, "own_seed": None},
+        {"mode": "deprecated-observation", "pseed": 7, "times": [1.0], "nd": False, "own_seed": None, "levels": [10.0, 20.0], "dask": False},
+        {"mode": "deprecated-calibration", "pseed": 7, "times": [1.0], "nd": False, "own_seed": None, "gseed": 123},
     ]
     for k in range(ncases + len(directed)):
         case = directed[k] if k < len(directed) else gen_mode_case(rng, ck.tier)
@@ -502,7 +538,7 @@ def body(ck: common.Check):
 
     ck.rule = ("discipline: random programs (draw / fail / seq / seeded s / seeded None, depth ≤ 5) on the real generator vs the symbolic model; "
                "models: each seeded model function on a real detector, same seed from two prior states (one after unrelated draws); "
-               "modes: exposure / observation (sequential, dask threads 1-8 workers, synchronous) / calibration (1-2 islands) with a pipeline seed, run twice; "
+               "modes: exposure / observation (sequential, dask threads 1-8 workers, synchronous) / calibration (1-2 islands) with a pipeline seed, and the deprecated entry points exposure_mode / observation_mode / calibration_mode, run twice; "
                "threads: 2-8 real threads in overlapping seeded regions. non-trivial = contains a seeded region and a draw")
     ck.assumptions = [
         "atomicity of numpy's get_state/seed/set_state/one draw under the GIL (trusted; the thread theorem is about the lock protocol)",
